@@ -513,7 +513,7 @@ def minimise(ctx, run, viol, slot_idx, budget):
     for i, s in enumerate(h["steps"]):
         if s["op"] in ("exec", "overlap_at"):
             # an overlap step stands for two executions (the peer completes first, then the parked one)
-            n_exec += 2 if s["op"] == "overlap_at" else 1
+            n_exec += 2 if (s["op"] == "overlap_at" and not s.get("peer_edit")) else 1
             if n_exec >= viol["exec"]:
                 cut = i + 1
                 break
@@ -738,6 +738,9 @@ def cmd_check(prop, tier):
                 probes["evict_" + s["what"]] = probes.get("evict_" + s["what"], 0) + 1
             elif s["op"] == "seed_outdir":
                 probes["outdir_" + s["state"]] = probes.get("outdir_" + s["state"], 0) + 1
+            elif s["op"] == "overlap_at" and s.get("peer_edit"):
+                ei += 1
+                probes["source_saved_while_pavexc_was_parked"] = probes.get("source_saved_while_pavexc_was_parked", 0) + 1
             elif s["op"] == "overlap_at":
                 ei += 2
                 probes["overlapping_processes"] = probes.get("overlapping_processes", 0) + 1
